@@ -65,9 +65,11 @@ func tlaStrSeq(xs []string) string {
 	return "<<" + strings.Join(q, ", ") + ">>"
 }
 
-const c08Mod = "example.com/c08-mod.x"
+// the two generated modules differ in their module path as well: a dotted host-like path and a path whose first
+// element has no dot (legal for local modules; looks like a standard-library path to naive heuristics)
+var c08Mods = map[bool]string{false: "example.com/c08-mod.x", true: "c08app/sub-m.z"}
 
-func (cs c08Case) userPath(k int, u c08User) string { return fmt.Sprintf("%s/k%d/%s", c08Mod, k, u.dir) }
+func (cs c08Case) userPath(k int, u c08User) string { return fmt.Sprintf("%s/k%d/%s", c08Mods[cs.groveDep], k, u.dir) }
 
 // importsInOrder: the sequence of imports as goose collects them (file a then file b)
 func (u c08User) importsInOrder() []string { return append(append([]string{}, u.order...), u.fileB...) }
@@ -348,7 +350,7 @@ func C08(c *ev.Ctx) {
 		root := filepath.Join(c.Scratch, fmt.Sprintf("c08-%v", gd))
 		_ = os.RemoveAll(root)
 		_ = os.MkdirAll(filepath.Join(root, "stubs", "gokv", "grove_ffi"), 0755)
-		gomod := fmt.Sprintf("module %s\n\ngo 1.22\n\nrequire (\n\tgithub.com/goose-lang/goose v0.0.0\n\tgithub.com/goose-lang/primitive v0.1.0\n\tgithub.com/mit-pdos/gokv v0.0.0\n)\n\nreplace github.com/goose-lang/goose => %s\n\nreplace github.com/mit-pdos/gokv => ./stubs/gokv\n", c08Mod, c.Repo)
+		gomod := fmt.Sprintf("module %s\n\ngo 1.22\n\nrequire (\n\tgithub.com/goose-lang/goose v0.0.0\n\tgithub.com/goose-lang/primitive v0.1.0\n\tgithub.com/mit-pdos/gokv v0.0.0\n)\n\nreplace github.com/goose-lang/goose => %s\n\nreplace github.com/mit-pdos/gokv => ./stubs/gokv\n", c08Mods[gd], c.Repo)
 		_ = os.WriteFile(filepath.Join(root, "go.mod"), []byte(gomod), 0644)
 		sum, _ := os.ReadFile(filepath.Join(c.Repo, "go.sum"))
 		_ = os.WriteFile(filepath.Join(root, "go.sum"), sum, 0644)
@@ -509,6 +511,57 @@ func C08(c *ev.Ctx) {
 		evals++
 		if _, err := os.Stat(filepath.Join(out, "demo_pkg_x.v")); err != nil || code != 0 {
 			c.Violation("c08.file-placement-root", fmt.Sprintf("root package of module demo.pkg-x: expected %s, exit %d, tree:\n%s\n%s", "demo_pkg_x.v", code, listTree(out), firstLines(msg, 5)), nil)
+		}
+	}
+	// ---- degenerate packages: header and footer must pair up whatever (little) the package declares ----
+	{
+		root := filepath.Join(c.Scratch, "c08deg")
+		_ = os.RemoveAll(root)
+		_ = os.MkdirAll(root, 0755)
+		gomod := fmt.Sprintf("module deg.example/m\n\ngo 1.22\n\nrequire github.com/goose-lang/goose v0.0.0\n\nreplace github.com/goose-lang/goose => %s\n", c.Repo)
+		_ = os.WriteFile(filepath.Join(root, "go.mod"), []byte(gomod), 0644)
+		sum, _ := os.ReadFile(filepath.Join(c.Repo, "go.sum"))
+		_ = os.WriteFile(filepath.Join(root, "go.sum"), sum, 0644)
+		degs := []struct{ name, src, ffi string }{
+			{"empty", "package empty\n", "none"},
+			{"doconly", "// Package doconly has no declarations.\npackage doconly\n", "none"},
+			{"constonly", "package constonly\n\nconst K uint64 = 3\n", "none"},
+			{"typeonly", "package typeonly\n\ntype T struct {\n\ta uint64\n}\n", "none"},
+			{"ffiblank", "package ffiblank\n\nimport _ \"github.com/goose-lang/goose/machine/disk\"\n", "disk"},
+			{"fficonst", "package fficonst\n\nimport \"github.com/goose-lang/goose/machine/disk\"\n\nconst K uint64 = disk.BlockSize\n", "disk"},
+			{"twofilesempty", "package twofilesempty\n", "none"},
+		}
+		for _, d := range degs {
+			_ = os.MkdirAll(filepath.Join(root, d.name), 0755)
+			_ = os.WriteFile(filepath.Join(root, d.name, "a.go"), []byte(d.src), 0644)
+			if d.name == "twofilesempty" {
+				_ = os.WriteFile(filepath.Join(root, d.name, "b.go"), []byte(d.src), 0644)
+			}
+			out := filepath.Join(root, "_out")
+			msg, code := run(root, out, []string{"./" + d.name})
+			if code != 0 {
+				continue // refusing a degenerate package with an error is fine
+			}
+			evals++
+			b, err := os.ReadFile(filepath.Join(out, "deg_example", "m", d.name+".v"))
+			if err != nil {
+				c.Violation("c08.file-placement", fmt.Sprintf("degenerate package %s: goose exits 0 but wrote no file\n%s", d.name, firstLines(msg, 4)), map[string]string{"tree.txt": listTree(out)})
+				continue
+			}
+			text := string(b)
+			hasSection := strings.Contains(text, "\nSection code.\n")
+			hasFooter := strings.HasSuffix(strings.TrimRight(text, "\n"), "End code.")
+			hasPrelude := strings.Contains(text, "ffi."+d.ffi+"_prelude.")
+			bad := ""
+			switch {
+			case d.ffi == "none" && (!hasSection || !hasFooter):
+				bad = fmt.Sprintf("no FFI: expected the generic section with its closing footer (Section code. present=%v, End code. present=%v)", hasSection, hasFooter)
+			case d.ffi != "none" && (!hasPrelude || hasSection || hasFooter):
+				bad = fmt.Sprintf("FFI %s: expected its prelude and no section (prelude=%v, Section code.=%v, End code.=%v)", d.ffi, hasPrelude, hasSection, hasFooter)
+			}
+			if bad != "" {
+				c.Violation("c08.header", fmt.Sprintf("degenerate package %s (%q): %s", d.name, d.src, bad), map[string]string{"emitted.v": text})
+			}
 		}
 	}
 	c.AddTraces(evals)
